@@ -484,6 +484,7 @@ func renderFlow(in Input, obs *Obs, crash string) core.Case {
 	if f.JqFilter != "" {
 		jq = "set"
 	}
+	c.Tags = append(c.Tags, serverTags(in)...)
 	c.Tags = append(c.Tags, "kind:flow", "version:"+f.version(), "flow:keepFull="+keep, "flow:executeHookOnEvent="+events, "flow:jqFilter:"+jq,
 		fmt.Sprintf("flow:existing-objects=%d", len(f.Initial)), fmt.Sprintf("flow:watch-events=%d", len(evs)))
 	if f.JqFilter != "" {
@@ -527,6 +528,9 @@ func flowObj(ns, name string, base map[string]any) map[string]any {
 		}
 	}
 	meta["name"], meta["namespace"] = name, ns
+	if _, ok := meta["uid"]; ok {
+		meta["uid"] = uidFor(ns, name) // one uid per object of the cluster, whatever its later versions
+	}
 	o["metadata"], o["kind"], o["apiVersion"] = meta, flowKind, "v1"
 	return o
 }
@@ -624,6 +628,25 @@ func flowHistory(f *Flow) Input {
 	}}
 }
 
+// servedCM: cmData(...) as an API server returns it (resourceVersion rv, nmgr field managers).
+func servedCM(ns, name, v string, rv, nmgr int) map[string]any {
+	o := cmData(ns, name, v)
+	serverFields(o, nmgr, rv, nmgr > 1, func(i int) int { return i })
+	return o
+}
+
+// the same history on a real cluster: every object carries what the API server adds, and every
+// write gives it a new resourceVersion (the second write of cm-1 also a second field manager)
+func flowHistoryServed(f *Flow) Input {
+	it := func(o map[string]any) Item { return Item{Obj: o, Filter: f.JqFilter, Keep: f.keep()} }
+	f.Initial = []Item{it(servedCM("default", "cm-1", "bar", 48213, 1))}
+	return Input{Version: f.version(), Flow: f, Ctxs: []Ctx{
+		{Kind: "flow-op", Op: "apply", Objects: []Item{it(servedCM("default", "cm-1", "baz", 48220, 2))}},
+		{Kind: "flow-op", Op: "apply", Objects: []Item{it(servedCM("default", "cm-2", "qux", 48231, 1))}},
+		{Kind: "flow-op", Op: "delete", Objects: []Item{{Obj: cmData("default", "cm-1", ""), Keep: f.keep()}}},
+	}}
+}
+
 // flowCorpus: one fixed history under the option combinations that matter for the contract.
 func flowCorpus() []core.In[Input] {
 	all := []string{"Added", "Modified", "Deleted"}
@@ -641,6 +664,29 @@ func flowCorpus() []core.In[Input] {
 	add(&Flow{JqFilter: ".metadata | {name, namespace}", Keep: bptr(false), InclSelf: true})
 	add(&Flow{Legacy: true, JqFilter: ".data", Events: &all})
 	add(&Flow{Legacy: true})
+	// a real cluster (objects with managedFields, uid, resourceVersion, ...) and jqFilters that read those
+	// fields directly or wholesale; full objects kept / not kept / default
+	served := func(f *Flow) { out = append(out, core.In[Input]{Input: flowHistoryServed(f), Stream: "corpus"}) }
+	served(&Flow{Name: "cms", JqFilter: `{m: [.metadata.managedFields[]?.manager]}`, Keep: bptr(true), Events: &all, InclSelf: true})
+	served(&Flow{Name: "cms", JqFilter: `.metadata`, Keep: bptr(false), Events: &all, InclSelf: true})
+	served(&Flow{Name: "cms", JqFilter: `.`})
+	served(&Flow{JqFilter: `{n: (.metadata.managedFields | length)}`, Keep: bptr(false), Group: "g"})
+	served(&Flow{Name: "cms", JqFilter: `{data: .data}`, Keep: bptr(true), InclSelf: true})
+	served(&Flow{Legacy: true, JqFilter: `{meta: .metadata}`, Events: &all})
+	return out
+}
+
+// flowServedExhaustive (thorough, search): every filter that reads what the API server adds x
+// keepFullObjectsInMemory {unset,true,false} x includeSnapshotsFrom {no, self} over the served history.
+func flowServedExhaustive() []core.In[Input] {
+	var out []core.In[Input]
+	for _, filter := range metaFilters {
+		for _, keep := range []*bool{nil, bptr(true), bptr(false)} {
+			for _, incl := range []bool{false, true} {
+				out = append(out, core.In[Input]{Input: flowHistoryServed(&Flow{Name: "cms", JqFilter: filter, Keep: keep, InclSelf: incl}), Stream: "exhaustive"})
+			}
+		}
+	}
 	return out
 }
 
